@@ -17,6 +17,20 @@ def check_c04(sess, st, res, cfg):
         # `option=value` on a boolean option: the statement is silent
         sess.probe('non-boolean-option-value(unspecified)')
         return None
+    # where the comment grammar is specified (DESIGN.md A.3) the options
+    # are those the comments say, not those the real parser produced: an
+    # option that was declared but not applied must show at the gate too
+    blocked, applied, unspec = R.ref_options(
+        st['comments'], author, cfg['settings'].get('admins', []),
+        sess.options, sess.commands, sess.registry)
+    if not unspec and not blocked:
+        ref = {k: False for k in opts}
+        for k in cfg.get('cmd_line_options', []):
+            ref[k] = True
+        for k, v in applied.items():
+            ref[k] = v if k == 'after_pull_request' else True
+        opts = ref
+        sess.probe('options-from-the-comments')
     per_author = cfg['settings'].get('pr_author_options', {}).get(author, [])
     for k in per_author:
         opts[k] = True
@@ -64,8 +78,9 @@ class C04Base(E5Reviews):
             'job; distinct = different (op, outcome, gate, settings) step '
             'digests')
     ASSUMPTIONS = ['reference predicate = DESIGN.md A.2, three-valued; '
-                   'options are those the real handle_comments produced '
-                   '(C07 checks them separately) plus per-author settings']
+                   'options are those the comments declare where the '
+                   'grammar is specified (DESIGN.md A.3), else those the '
+                   'real handle_comments produced, plus per-author settings']
 
     def checks(self):
         return [check_c04]
